@@ -76,6 +76,7 @@ def extract_consts():
     c["dns_max"] = int(one(r"\n\tTCPDNSMaxMessageSize\s*=\s*(\d+)\n", tcp, "TCPDNSMaxMessageSize").group(1))
     c.update(extract_splice())
     c.update(extract_ready())
+    c.update(extract_loops())
     c["direct"] = int(one(r"\n\tOutboundDirect\s+OutboundIndex\s*=\s*(0x[0-9a-fA-F]+|\d+)\n", gen, "OutboundDirect").group(1), 0)
     c["block"] = int(one(r"\n\tOutboundBlock\s+OutboundIndex\s*=\s*(0x[0-9a-fA-F]+|\d+)\n", gen, "OutboundBlock").group(1), 0)
     return c
@@ -115,6 +116,26 @@ def extract_splice():
     if not lim:
         raise AnchorMoved("relaySplicePipePoolLimit")
     return {"sp_fill": f_fill, "sp_drain": f_drain, "sp_err": f_err, "sp_short": f_short, "sp_limit": int(lim.group(1))}
+
+
+def extract_loops():
+    """relayCopyLoop / relayCopyDirect: the bytes a Read returned are written before its error is looked at"""
+    src = _read("control/tcp_copy_engine.go")
+    res = {}
+    for fn, key in (("relayCopyLoop", "loop_wf"), ("relayCopyDirect", "direct_wf")):
+        m = re.search(r"\nfunc %s\([^\n]*\{\n(.*?)\n\}\n" % fn, src, re.S)
+        if not m:
+            raise AnchorMoved(fn + " signature")
+        body = re.sub(r"//[^\n]*", "", m.group(1))
+        r, w, e = body.find("nr, er := src.Read(buf)"), body.find("dst.Write(buf[:nr])"), body.find("if er != nil {")
+        if min(r, w, e) < 0 or body.count("src.Read(") != 1 or body.count("dst.Write(") != 1 or body.count("if er != nil {") != 1:
+            raise AnchorMoved(fn + ": read / write / error check not found once each")
+        if not (r < w and r < e):
+            raise AnchorMoved(fn + ": the read is not first")
+        if not re.search(r"if nr > 0 \{\s*nw, ew := dst\.Write\(buf\[:nr\]\)", body):
+            raise AnchorMoved(fn + ": the write is not guarded by nr > 0")
+        res[key] = w < e
+    return res
 
 
 def _blocks(txt):
@@ -215,12 +236,14 @@ def write_gen(c):
            "Definition c05_splice_pool_limit : N := %d.\n"
            "Definition c05_ready_closes_ok : N := %d.\nDefinition c05_ready_closes_timeout : N := %d.\nDefinition c05_ready_closes_err : N := %d.\n"
            "Definition c05_derr_set_ok : bool := %s.\nDefinition c05_derr_set_timeout : bool := %s.\nDefinition c05_derr_set_err : bool := %s.\n"
+           "Definition c05_loop_write_first : bool := %s.\nDefinition c05_direct_write_first : bool := %s.\n"
            % (c["dns_first"], c["half_close"], c["prefetch"], c["relay_buf"], c["bufio_size"],
               "; ".join(str(x) for x in c["excluded"]),
               "; ".join("[" + ";".join(str(ord(ch)) for ch in p) + "]" for p in c["http"]),
               c["direct"], c["block"],
               vlib.cbool(c["sp_fill"]), vlib.cbool(c["sp_drain"]), vlib.cbool(c["sp_err"]), vlib.cbool(c["sp_short"]), c["sp_limit"],
-              c["rd_ok"][0], c["rd_timeout"][0], c["rd_err"][0], vlib.cbool(c["rd_ok"][1]), vlib.cbool(c["rd_timeout"][1]), vlib.cbool(c["rd_err"][1])))
+              c["rd_ok"][0], c["rd_timeout"][0], c["rd_err"][0], vlib.cbool(c["rd_ok"][1]), vlib.cbool(c["rd_timeout"][1]), vlib.cbool(c["rd_err"][1]),
+              vlib.cbool(c["loop_wf"]), vlib.cbool(c["direct_wf"])))
     vlib.write_if_changed(os.path.join(vlib.COQ, "gen", "C05_Extracted.v"), txt)
 
 
@@ -441,6 +464,22 @@ def sniff_pause_family():
     return out
 
 
+def fin_family():
+    """a side's LAST bytes arrive in the same Read as its end of stream (n > 0 with io.EOF) or as a connection
+    reset (n > 0 with an error): on every wrapper stack, for either side and for both"""
+    stacks = [("sock", 22, b"plain hello\r\n"), ("bufio", 53, b"\x00\x05hello-not-dns"),
+              ("prefixed", 8080, b"SSH-2.0-OpenSSH_9.6\r\n"), ("sniffer", 443, HTTP)]
+    out = []
+    for name, port, first in stacks:
+        for cf, sf in (("eof", ""), ("", "eof"), ("eof", "eof"), ("reset", ""), ("", "reset")):
+            cl = [mk_chunk(0, first), mk_chunk(400, b"", 31, 60), mk_chunk(2000, b"last-bytes-of-the-client")]
+            sv = [mk_chunk(110, b"", 32, 20), mk_chunk(2510, b"last-bytes-of-the-server")]
+            out.append({"kind": "mem", "port": port, "outbound": 2, "dial_ip": False, "sniff_ms": 1000, "grace_ms": 0,
+                        "client": {"chunks": cl, "eof_at": 2000, "fin": cf}, "server": {"chunks": sv, "eof_at": 2510, "fin": sf},
+                        "flight": "fin_%s_c%s_s%s" % (name, cf or "sep", sf or "sep")})
+    return out
+
+
 def grace_family(grace):
     """fixed scenarios: data both ways, the FIRST half-close at relay age {0.5, 1, 1.5, 3} x grace, the other
     direction delivering its remaining bytes half a grace period later and half-closing after that - on every
@@ -571,7 +610,7 @@ def to_harness(case):
                 "order": case["order"], "wait_scale": case.get("wait_scale", 1)}
 
     def side(s):
-        return {"chunks": [{"at": c["at"], "data": chunk_bytes(c).hex()} for c in s["chunks"]], "eof_at": s["eof_at"]}
+        return {"chunks": [{"at": c["at"], "data": chunk_bytes(c).hex()} for c in s["chunks"]], "eof_at": s["eof_at"], "fin": s.get("fin", "")}
     return {"kind": case["kind"], "port": case["port"], "outbound": case["outbound"], "dial_ip": case["dial_ip"],
             "sniff_ms": case["sniff_ms"], "grace_ms": case.get("grace_ms", 0), "client": side(case["client"]), "server": side(case["server"]),
             "wait_scale": case.get("wait_scale", 1), "gate_after": case.get("gate_after", 0)}
@@ -797,6 +836,7 @@ def run_batch(sc, binary, cases, tag):
 
     terms, defs, owners = [], [], []
     sterms, sowners = [], []
+    rterms, rowners = [], []
     for i, c, r in sflat:
         if r.get("panic") or r.get("hang"):
             add(i, 0, [99])
@@ -813,6 +853,13 @@ def run_batch(sc, binary, cases, tag):
             # a well-formed DNS query: the DNS fast path owns the connection (not a relay; the harness has no
             # DNS controller to answer it) - outside this property
             continue
+        if c["client"].get("fin") == "reset" or c["server"].get("fin") == "reset":
+            rterms.append("(%s, %s, %s, %s, %s)" % (cbytes_big(b"".join(chunk_bytes(x) for x in c["client"]["chunks"])),
+                                                    cbytes_big(b"".join(chunk_bytes(x) for x in c["server"]["chunks"])),
+                                                    cbytes_big(bytes.fromhex(r["up"])), cbytes_big(bytes.fromhex(r["down"])),
+                                                    vlib.cbool(c["client"].get("fin") == "reset")))
+            rowners.append((i, j))
+            continue
         name_chunks(c, "k%d" % n, defs)
         terms.append((n, obs_to_coq(c, r)))
         owners.append((i, j))
@@ -826,7 +873,8 @@ def run_batch(sc, binary, cases, tag):
             "Definition cases : list obs := [" + "; ".join("case_%d" % n for n, _ in terms) + "].\n"
             "Definition R := Eval vm_compute in map check_case cases.\nPrint R.\n"
             + "".join("Definition scase_%d : sobs := %s.\n" % (n, t) for n, t in enumerate(sterms)) +
-            "Definition RS := Eval vm_compute in map check_splice [" + "; ".join("scase_%d" % n for n in range(len(sterms))) + "].\nPrint RS.\n")
+            "Definition RS := Eval vm_compute in map check_splice [" + "; ".join("scase_%d" % n for n in range(len(sterms))) + "].\nPrint RS.\n"
+            "Definition RB := Eval vm_compute in map check_reset [" + "; ".join(rterms) + "].\nPrint RB.\n")
     ok, outtxt = vlib.coq_eval("C05_cases_%s" % tag, text, timeout=3000)
     if not ok:
         return None, None, None, "coq evaluation failed: " + outtxt[-2500:]
@@ -844,6 +892,15 @@ def run_batch(sc, binary, cases, tag):
         codes = [int(x) for x in p_.split(";") if x]
         if codes:
             add(i, 0, codes)
+    mb = re.search(r"(?m)^RB\s*=\s*(.*?)\n\s*:\s*list", outtxt, re.S)
+    bbody = re.sub(r"\s+", "", mb.group(1)) if mb else "[]"
+    bper = re.findall(r"\[([\d;]*)\]", bbody[1:-1]) if rterms else []
+    if len(bper) != len(rterms):
+        return None, None, None, "cannot parse coq output for the reset cases (%d vs %d): %s" % (len(bper), len(rterms), bbody[:300])
+    for (i, j), p_ in zip(rowners, bper):
+        codes = [int(x) for x in p_.split(";") if x]
+        if codes:
+            add(i, j, codes)
     sigs = []
     for i in sowners:
         sigs.append(("20", str(SPLICE_MODES.index((cases[i]["mode"], cases[i]["cancel_at"])) if (cases[i]["mode"], cases[i]["cancel_at"]) in SPLICE_MODES else 9),
@@ -961,6 +1018,8 @@ def matcher_of(case, res, codes):
         return "wrapped-client-conn-has-no-CloseWrite-server-eof-not-passed-on"
     if 27 in codes:
         return "detection-delay-above-window"
+    if (21 in codes and case["client"].get("fin")) or (22 in codes and case["server"].get("fin")):
+        return "bytes-returned-together-with-the-read-error-dropped"
     if case["kind"] == "tcp" and 21 in codes:
         sent = b"".join(chunk_bytes(ch) for ch in case["client"]["chunks"])
         got = bytes.fromhex(res.get("up") or "")
@@ -1124,7 +1183,7 @@ def main(argv):
         if os.path.isdir(cdir):
             for n in sorted(os.listdir(cdir)):
                 corpus.append(json.load(open(os.path.join(cdir, n))))
-        cases = (corpus + sniff_pause_family() + grace_family(consts["half_close"]) + [gen_case(rng, args.tier) for _ in range(n_mem)] + [gen_multi_case(rng, args.tier) for _ in range(n_multi)]
+        cases = (corpus + fin_family() + sniff_pause_family() + grace_family(consts["half_close"]) + [gen_case(rng, args.tier) for _ in range(n_mem)] + [gen_multi_case(rng, args.tier) for _ in range(n_multi)]
                  + tcp_gate_family(args.tier) + [gen_tcp_case(rng, args.tier) for _ in range(n_tcp)] + gen_splice_cases(rng, args.tier))
         all_err, sigs, all_res = {}, [], {}
         tie_broken = None
@@ -1231,7 +1290,7 @@ def main(argv):
         for c in cases:
             flights[c.get("flight", "?")] = flights.get(c.get("flight", "?"), 0) + 1
         cov.update(evaluations=n_eval, distinct_nontrivial=nontrivial, distinct_signatures=distinct,
-                   rule="random connection scripts: first flight (none/HTTP variants/TLS full+partial/SSH/binary/port-53 frames: short, garbage, DNS response, oversized, incomplete) segmented at 1,2,15,16,17,half,len-1 with gaps around the sniff (1 s) and DNS (5 s) windows +-20 ms, follow-up payloads incl. 4095-4097 and 32767-32769 bytes, both orders of the two ends of stream, server data around client-EOF + grace +-10 ms, ports 53/22/3306 (excluded) and 80/443/8080, outbounds direct/block/user, dial mode ip; splice-pool scenarios on real sockets (back-pressured upload ended at each exit of relaySpliceCopyExact - ctx at the loop top after the n-th partial / n-th drain, cancelled while blocked, upstream reset, clean EOF - then 1-3 healthy connections reusing the pooled pipes; pool fill levels observed); real-socket gate family (bufio/prefixed/sniffer stacks, the client's next segment pending in the socket when the relay starts, sizes around 4096 and 32768); sniff-pause family (sniffing window expires on an incomplete TLS record / HTTP head, the rest arrives 20 ms or 5 s later); fixed half-close family (first half-close at relay age 0.5/1/1.5/3 x grace, remaining bytes of the other direction half a grace later, every wrapper stack, either side first); overlapping-connection scenarios (2-4 connections over the shared buffer pools on one P: each prologue runs while others are parked between prologue and relay, random valid orders, every connection judged on its own bytes); "
+                   rule="random connection scripts: first flight (none/HTTP variants/TLS full+partial/SSH/binary/port-53 frames: short, garbage, DNS response, oversized, incomplete) segmented at 1,2,15,16,17,half,len-1 with gaps around the sniff (1 s) and DNS (5 s) windows +-20 ms, follow-up payloads incl. 4095-4097 and 32767-32769 bytes, both orders of the two ends of stream, server data around client-EOF + grace +-10 ms, ports 53/22/3306 (excluded) and 80/443/8080, outbounds direct/block/user, dial mode ip; splice-pool scenarios on real sockets (back-pressured upload ended at each exit of relaySpliceCopyExact - ctx at the loop top after the n-th partial / n-th drain, cancelled while blocked, upstream reset, clean EOF - then 1-3 healthy connections reusing the pooled pipes; pool fill levels observed); real-socket gate family (bufio/prefixed/sniffer stacks, the client's next segment pending in the socket when the relay starts, sizes around 4096 and 32768); final-read family (a side's last bytes returned in the same Read as io.EOF or as a reset, every stack, either side and both); sniff-pause family (sniffing window expires on an incomplete TLS record / HTTP head, the rest arrives 20 ms or 5 s later); fixed half-close family (first half-close at relay age 0.5/1/1.5/3 x grace, remaining bytes of the other direction half a grace later, every wrapper stack, either side first); overlapping-connection scenarios (2-4 connections over the shared buffer pools on one P: each prologue runs while others are parked between prologue and relay, random valid orders, every connection judged on its own bytes); "
                         "signature = (stack at relay start x holds-bytes, detection stages run, ending alive/error/clean, order of the ends of stream, stale-deadline/sticky-error/spin bits); non-trivial = a wrapper on the stack or at least one end of stream",
                    traces_validated_against_impl=sum((len(c["conns"]) if c["kind"] == "multi" else 1) for i, c in enumerate(cases)
                                                      if c["kind"] in ("mem", "multi") and not is_model_fail(all_err.get(i, []))),
